@@ -6,6 +6,7 @@ correspondence check ties to the exported FilerConf API of /repo on every run.
 import SwV.Model.C23
 import SwV.Spec.C23
 import SwV.Lemmas.C23
+import SwV.Gen.C23
 
 namespace SwV.Props.C23
 open SwV.Model.C23 SwV.Spec.C23 SwV.Lemmas.C23
@@ -211,5 +212,70 @@ theorem delete_keeps_longer_sibling_witness :
 /-- `fsync` and `readOnly` cannot be switched off by a longer rule (a rule "sets" a boolean only by `true`) -/
 theorem bool_fields_monotone_witness :
     (matchRule [(['/'], { fsync := true, readOnly := true }), (['/', 'a'], { fsync := false })] ['/', 'a', 'b']).fsync = true := by decide
+
+/-! ## T1 bridges: facts regenerated from the source by `extract` (props/C23/extract.json → `SwV.Gen.C23`)
+
+Each theorem states the text of the decisive Go statements as they stand in the working tree together with the
+model expression that mirrors them; an edit to the Go code changes the generated string and breaks the theorem
+of that name. -/
+
+/-- `util.Nvl(b, a)`: the first argument that is not the empty string (`nvl`) -/
+theorem bridge_nvl :
+    SwV.Gen.C23.nvl_cond = "s != \"\"" ∧
+    (∀ b a : List Char, nvl b a = if b ≠ [] then b else a) ∧
+    (∀ a : List Char, nvl [] a = a) ∧ (∀ (c : Char) (b a : List Char), nvl (c :: b) a = c :: b) :=
+  ⟨by decide, fun _ _ => rfl, fun _ => rfl, fun _ _ _ => rfl⟩
+
+/-- `mergePathConf(a, b)` field by field, in source order -/
+theorem bridge_merge_strings :
+    SwV.Gen.C23.merge_collection = "a.Collection = util.Nvl(b.Collection, a.Collection)" ∧
+    SwV.Gen.C23.merge_replication = "a.Replication = util.Nvl(b.Replication, a.Replication)" ∧
+    SwV.Gen.C23.merge_ttl = "a.Ttl = util.Nvl(b.Ttl, a.Ttl)" ∧
+    SwV.Gen.C23.merge_disk_cond = "b.DiskType != \"\"" ∧ SwV.Gen.C23.merge_disk = "a.DiskType = b.DiskType" ∧
+    ∀ a b : Conf,
+      (mergePathConf a b).collection = nvl b.collection a.collection ∧
+      (mergePathConf a b).replication = nvl b.replication a.replication ∧
+      (mergePathConf a b).ttl = nvl b.ttl a.ttl ∧
+      (mergePathConf a b).diskType = (if b.diskType ≠ [] then b.diskType else a.diskType) :=
+  ⟨by decide, by decide, by decide, by decide, by decide, fun _ _ => ⟨rfl, rfl, rfl, rfl⟩⟩
+
+theorem bridge_merge_flags :
+    SwV.Gen.C23.merge_fsync = "a.Fsync = b.Fsync || a.Fsync" ∧
+    SwV.Gen.C23.merge_growth_cond = "b.VolumeGrowthCount > 0" ∧
+    SwV.Gen.C23.merge_growth = "a.VolumeGrowthCount = b.VolumeGrowthCount" ∧
+    SwV.Gen.C23.merge_readonly_cond = "b.ReadOnly" ∧ SwV.Gen.C23.merge_readonly = "a.ReadOnly = b.ReadOnly" ∧
+    ∀ a b : Conf,
+      (mergePathConf a b).fsync = (b.fsync || a.fsync) ∧
+      (mergePathConf a b).growth = (if b.growth > 0 then b.growth else a.growth) ∧
+      (mergePathConf a b).readOnly = (if b.readOnly then b.readOnly else a.readOnly) :=
+  ⟨by decide, by decide, by decide, by decide, by decide, fun _ _ => ⟨rfl, rfl, rfl⟩⟩
+
+/-- `MatchStorageRule` starts from the empty conf and merges every reported rule INTO it (`matchStep`,
+    `matchUpTo`); `AddLocationConf` keys the trie by `LocationPrefix`; `DeleteLocationConf` rebuilds the
+    trie from every rule whose key differs (`delRule`). -/
+theorem bridge_match_add_delete :
+    SwV.Gen.C23.match_start = "pathConf = &filer_pb.FilerConf_PathConf{}" ∧
+    SwV.Gen.C23.match_key = "[]byte(path)" ∧
+    SwV.Gen.C23.match_merge_into = "pathConf" ∧ SwV.Gen.C23.match_merge_from = "t" ∧
+    SwV.Gen.C23.add_key = "[]byte(locConf.LocationPrefix)" ∧ SwV.Gen.C23.add_value = "locConf" ∧
+    SwV.Gen.C23.del_skip = "string(key) == locationPrefix" ∧
+    SwV.Gen.C23.del_keep_key = "append([]byte{}, key...)" ∧ SwV.Gen.C23.del_keep_value = "value" ∧
+    SwV.Gen.C23.del_install = "fc.rules = rules" ∧
+    (∀ (rs : Rules) (path : Key) (acc c : Conf) (i : Nat), rs.lookup (path.take (i + 1)) = some c →
+      matchStep rs path acc i = mergePathConf acc c) ∧
+    (∀ (rs : Rules) (path : Key), matchUpTo rs path 0 = {}) ∧
+    (∀ (rs : Rules) (k : Key), delRule rs k = rs.filter fun r => !decide (r.1 = k)) := by
+  refine ⟨by decide, by decide, by decide, by decide, by decide, by decide, by decide, by decide, by decide, by decide,
+    ?_, fun _ _ => rfl, ?_⟩
+  · intro rs path acc c i h; simp [matchStep, h]
+  · intro rs k; simp [delRule]
+
+/-- weakest supplement: hashes of the whole mirrored functions (`MatchStorageRule`'s callback returning
+    `true`, i.e. never stopping the descent, is only visible here) -/
+theorem bridge_pins :
+    SwV.Gen.C23.src_mergePathConf = "a3cfd1da571c2b43" ∧ SwV.Gen.C23.src_Nvl = "4f1b613a066b7610" ∧
+    SwV.Gen.C23.src_MatchStorageRule = "8e872fce421dd56d" ∧
+    SwV.Gen.C23.src_AddLocationConf = "f43f379e52890807" ∧
+    SwV.Gen.C23.src_DeleteLocationConf = "582b58d75707e648" := by decide
 
 end SwV.Props.C23
